@@ -123,13 +123,24 @@ def obligations(tier):
         oks = And(Or(n < 1, o["ok1"]), Or(n < 2, o["ok2"]), Or(n < 3, o["ok3"]))
         execd = And((n >= 1).iff(o["x1"]), (n >= 2).iff(o["x2"]), (n >= 3).iff(o["x3"]))
         new_ok = And(st > 0, s * st <= nx, nx < (s + 1) * st)
+        gi = Ite(n <= 0, c0, Ite(n.eq(1), i["g1"], Ite(n.eq(2), i["g2"], i["g3"])))
+        cl += [("Ok(Some((steps, cost))) => cost equals the iterate defined independently of the code (ghost chain g1 = floor(c*f/10^20), g2 = floor(g1*f/10^20), g3 = ...)",
+                And(o["some"], o["has"]).implies(c.eq(gi)))]
         cl += [("Ok(Some((steps, cost))) => steps == floor(next_minted / step_amount) != grow_steps and cost is the (steps - grow_steps)-fold iterate of c -> floor(c*factor/10^20)",
                 And(o["some"], o["has"]).implies(And(new_ok, s.ne(s0), c.eq(it), oks, execd))),
                ("Ok(None) => floor(next_minted / step_amount) == grow_steps", And(o["some"], Not(o["has"])).implies(And(st > 0, s0 * st <= nx, nx < (s0 + 1) * st))),
                ("Err => step_amount == 0 or a grown cost exceeds u128",
                 Not(o["some"]).implies(Or(st.eq(0), And(o["x1"], Not(o["ok1"])), And(o["x2"], Not(o["ok2"])), And(o["x3"], Not(o["ok3"])))))]
         return cl
-    nm_inputs = [("step", "u64"), ("steps", "u64"), ("cost", "u128"), ("factor", "u128"), ("next", "u64")]
+    nm_inputs = [("step", "u64"), ("steps", "u64"), ("cost", "u128"), ("factor", "u128"), ("next", "u64"),
+                 ("g1", "int"), ("g2", "int"), ("g3", "int")]       # ghosts: the iterates by definition
+
+    def nm_assume(i):
+        f = i["factor"]
+        chain = And(i["g1"] * UNIT <= i["cost"] * f, i["cost"] * f < (i["g1"] + 1) * UNIT,
+                    i["g2"] * UNIT <= i["g1"] * f, i["g1"] * f < (i["g2"] + 1) * UNIT,
+                    i["g3"] * UNIT <= i["g2"] * f, i["g2"] * f < (i["g3"] + 1) * UNIT)
+        return And(chain, Or(i["step"].eq(0), i["next"] < (i["steps"] + K + 1) * i["step"]))
     out.append(Obl("GtState::next_minting_cost [<= 3 growth steps]", path_fn("GtState::next_minting_cost"), nm_inputs,
                    lambda v: [Ref(gt_state({"grow_step_amount": v["step"], "grow_steps": v["steps"], "minting_cost": v["cost"], "minting_cost_grow_factor": v["factor"]})), v["next"]],
                    nm_view,
@@ -143,59 +154,57 @@ def obligations(tier):
                                  ("steps behind the counter (empty range)", And(o["some"], o["has"], o["steps"] < i["steps"]))],
                    lambda i, o: [("WRONG (twin): Ok(Some((steps, cost))) => cost == floor(stored cost * factor / 10^20) (one step only)",
                                   And(o["some"], o["has"]).implies(o["cost"].eq(o["r1"])))],
-                   assume=lambda i: Or(i["step"].eq(0), i["next"] < (i["steps"] + K + 1) * i["step"]),
+                   assume=nm_assume, ghost=("g1", "g2", "g3"),
                    unroll=K, taps={"grow": (r"apply_factor::<u128, 20>", tap_iter)}, derive=nm_derive))
-    # ---- path independence of the minting cost: mint up to t1 then up to t2  ==  mint up to t2 directly ------------------
-    def pi_runner(ex, item, subst, v):
-        from terms import t_and, t_ite as ite
-        def call(steps, cost, nxt):
-            st = gt_state({"grow_step_amount": v["step"], "grow_steps": steps, "minting_cost": cost, "minting_cost_grow_factor": v["factor"]})
-            return ex.run(item, subst, [Ref(st), nxt])
-        def after(r, steps, cost):
-            """the (grow_steps, minting_cost) that mint_to stores after Ok(r)"""
-            ok = r.pl["Ok"][0]
-            has = ok.is_("Some")
-            t = ok.pl.get("Some")
-            if not t:
-                return steps, cost, r.is_("Ok")
-            return (I(ite(has, t[0].fs[0].t, steps.t), "u64"), I(ite(has, t[0].fs[1].t, cost.t), "u128"), r.is_("Ok"))
-        pc0 = ex.pc
-        r1 = call(v["steps"], v["cost"], v["t1"])
-        s1, c1, ok1 = after(r1, v["steps"], v["cost"])
-        ex.pc = t_and(pc0, ok1)
-        r2 = call(s1, c1, v["t2"])
-        s2, c2, ok2 = after(r2, s1, c1)
-        ex.pc = pc0
-        r3 = call(v["steps"], v["cost"], v["t2"])
-        s3, c3, ok3 = after(r3, v["steps"], v["cost"])
-        ex.pc = pc0
-        return St("PI", [__import__("symex").Bv(ok1), __import__("symex").Bv(ok2), s2, c2, __import__("symex").Bv(ok3), s3, c3])
-    # one obligation per split (n1, n2) of at most 3 growth steps; the step amount, counters and totals stay symbolic
-    pi_inputs = [("step", "u64"), ("steps", "u64"), ("cost", "u128"), ("factor", "u128"), ("t1", "u64"), ("t2", "u64")]
-    pokes = [("grow_step_amount", "step"), ("grow_steps", "s"), ("minting_cost", "c"), ("minting_cost_grow_factor", "factor")]
-    pi_rust = ("let run = |s0: u64, c0: u128, targets: &[u64]| -> (bool, u64, u128) {\n            let (mut s, mut c) = (s0, c0);\n            for t in targets {\n            "
-               + rust_gt(world, pokes).replace("\n            ", "\n                ") +
-               "\n                match gt.verif_next_minting_cost(*t) { Ok(Some((a, b))) => { s = a; c = b; } Ok(None) => {} Err(_) => return (false, s, c) }\n            }\n            (true, s, c) };\n"
-               "            let (ok12, s2, c2) = run(steps, cost, &[t1, t2]);\n            let (ok1, _, _) = run(steps, cost, &[t1]);\n            let (ok3, s3, c3) = run(steps, cost, &[t2]);\n"
-               "            println!(\"v0={}\\nv1={}\\nv2={}\\nv3={}\\nv4={}\\nv5={}\\nv6={}\", ok1 as u8, ok12 as u8, s2, c2, ok3 as u8, s3, c3);")
+    # Path independence (mint to t1, then to t2  ==  mint to t2 directly) is a consequence of the clauses above: the
+    # result depends only on (floor(next / step), stored cost, factor) and is the n-fold iterate of one map from the
+    # stored cost, and mint_to stores exactly (steps, cost).  A composite obligation running the real function three
+    # times symbolically was tried; the equality clause was decided for some splits but z3 timed out (60 s) on others,
+    # so it is not part of the check.
+    # ---- unchecked_update_rank --------------------------------------------------------------------------------------------
+    USER = "programs/store/src/states/user.rs"
+    ur_inputs = [("max_rank", "u64"), ("amount", "u64"), ("old_rank", "u8")] + [(f"t{k}", "u64") for k in range(NRANK)]
 
-    def pi_view(ret):
-        d = {f"v{k}": (f.t) for k, f in enumerate(ret.fs)}
-        return d
+    def ur_init(v):
+        hn = world.struct_fields(USER, "UserHeader")
+        gn = world.struct_fields(USER, "UserGtState")
+        gt_user = St("UserGtState", [{"rank": v["old_rank"], "amount": v["amount"]}.get(n, Opq("UserGtState." + n)) for n in gn])
+        return {"$user": St("UserHeader", [gt_user if n == "gt" else Opq("UserHeader." + n) for n in hn])}
 
-    def pi_spec(i, o):
-        ok1, ok12, s2, c2, ok3, s3, c3 = [o[f"v{k}"] for k in range(7)]
-        both = And(ok1, ok12, ok3)
-        # (that the two routes fail together follows from the Err characterisation of the single call: an iterate exceeds u128)
-        return [("both routes succeed => same (grow_steps, minting_cost) afterwards", both.implies(And(s2.eq(s3), c2.eq(c3))))]
-    for n1 in range(K + 1):
-        for n2 in range(K + 1 - n1):
-            def pin(i, n1=n1, n2=n2):
-                st, s0 = i["step"], i["steps"]
-                return And(st > 0, (s0 + n1) * st <= i["t1"], i["t1"] < (s0 + n1 + 1) * st, (s0 + n1 + n2) * st <= i["t2"], i["t2"] < (s0 + n1 + n2 + 1) * st)
-            out.append(Obl(f"GtState::next_minting_cost: path independence [{n1} growth steps up to t1, {n2} more up to t2]",
-                           path_fn("GtState::next_minting_cost"), pi_inputs, None, pi_view, pi_rust, pi_spec,
-                           lambda i, o: [("all three calls succeed", And(o["v0"], o["v1"], o["v4"]))],
-                           None, assume=pin, unroll=K, runner=pi_runner, key="next_minting_cost_path_independence",
-                           notes="composite of three symbolic runs of the real function; the intermediate state is what mint_to stores (steps, cost) after an Ok result"))
+    def ur_view(ret, fin):
+        hn = world.struct_fields(USER, "UserHeader")
+        gn = world.struct_fields(USER, "UserGtState")
+        g = fin["$user"].fs[hn.index("gt")]
+        return {"rank": g.fs[gn.index("rank")].t, "amount": g.fs[gn.index("amount")].t}
+
+    def count_le(i):
+        n = E(0)
+        for k in range(NRANK):
+            n = n + Ite(And(i["max_rank"] > k, i[f"t{k}"] <= i["amount"]), 1, 0)
+        return n
+    glay = world.pod_layout(USER, "UserGtState")[0]
+    tl = ", ".join(f"t{k}" for k in range(NRANK))
+    ur_rust = (rust_gt(world, [("max_rank", "max_rank")]) + "\n"
+               f"            let ts: [u64; {NRANK}] = [{tl}];\n"
+               f"            for (k, t) in ts.iter().enumerate() {{ let o = {world.pod_layout(GT, 'GtState')[0]['ranks'][0]} + 8 * k; bytemuck::bytes_of_mut(gt)[o..o + 8].copy_from_slice(&t.to_le_bytes()); }}\n"
+               "            let mut user: Box<gmsol_store::states::user::UserHeader> = Box::new(bytemuck::Zeroable::zeroed());\n"
+               "            // the private gt.amount is located by probing through the user_gt_amount hook; gt.rank precedes it by the declared layout\n"
+               "            let n = std::mem::size_of::<gmsol_store::states::user::UserHeader>();\n"
+               "            let mut off = None;\n"
+               "            for o in (0..n - 8).step_by(8) { bytemuck::bytes_of_mut(&mut *user)[o] = 0xAB; let hit = vh::user_gt_amount(&user) == 0xAB; bytemuck::bytes_of_mut(&mut *user)[o] = 0; if hit { off = Some(o); break; } }\n"
+               f"            let aoff = off.expect(\"gt.amount offset\"); let roff = aoff - {glay['amount'][0]} + {glay['rank'][0]};\n"
+               "            bytemuck::bytes_of_mut(&mut *user)[aoff..aoff + 8].copy_from_slice(&amount.to_le_bytes());\n"
+               "            bytemuck::bytes_of_mut(&mut *user)[roff] = old_rank;\n"
+               "            gt.verif_update_rank(&mut user);\n"
+               "            println!(\"rank={}\\namount={}\", bytemuck::bytes_of(&*user)[roff], vh::user_gt_amount(&user));")
+    out.append(Obl("GtState::unchecked_update_rank", path_fn("GtState::unchecked_update_rank"), ur_inputs,
+                   lambda v: [Ref(gt_state({"max_rank": v["max_rank"], "ranks": Tup([v[f"t{k}"] for k in range(NRANK)])})), RefMut(0, "$user")], None, ur_rust,
+                   lambda i, o: [("rank == number of thresholds (among the first max_rank) that are <= the user's GT amount", o["rank"].eq(count_le(i))),
+                                 ("the amount is untouched", o["amount"].eq(i["amount"]))],
+                   lambda i, o: [("top rank", And(o["rank"].eq(NRANK), i["max_rank"].eq(NRANK))), ("rank lowered", o["rank"] < i["old_rank"]),
+                                 ("amount equal to a threshold", And(i["max_rank"] > 2, i["amount"].eq(i["t1"]), o["rank"].eq(2)))],
+                   lambda i, o: [("WRONG (twin): rank == number of thresholds strictly below the amount",
+                                  o["rank"].eq(sum((Ite(And(i["max_rank"] > k, i[f"t{k}"] < i["amount"]), 1, 0) for k in range(NRANK)), E(0))))],
+                   assume=lambda i: And(i["max_rank"] <= NRANK, *[Or(i["max_rank"] <= k + 1, i[f"t{k}"] < i[f"t{k + 1}"]) for k in range(NRANK - 1)]),
+                   init_locals=ur_init, view_state=ur_view))
     return out
